@@ -28,7 +28,8 @@ RULE = ('case = bit-exact likelihood family x configuration (networks 0/1, '
         'timeouts), digest recorded at each boundary, checkpoint copied. '
         'For boundary k in the cut set a new Sampler is built from the copy '
         'of the file and (full) continued to the end and compared with R, '
-        'or (short) advanced two batches and compared with A at k+1, k+2. '
+        'or (short) advanced two (batch >= 100: eight) batches and compared '
+        'with A at k+1, k+2, ... '
         'thorough: every k full. quick: stratified k (first batch, around '
         'every bound insertion, end of exploration, early/late sampling) '
         'full, all other k short. Plus a generated multi-stop sequence '
@@ -263,7 +264,11 @@ def run_case(case, tier='quick', only_k=None):
                                  'evaluated points after the resume differ '
                                  '(a point evaluated twice or skipped)' % kk)
                 else:
-                    for step in (1, 2):
+                    # large batches drain the proposal caches quickly: follow
+                    # the resumed object further (a stale cache only shows at
+                    # the next refill)
+                    n_follow = 8 if cfg['n_batch'] >= 100 else 2
+                    for step in range(1, n_follow + 1):
                         if kk + step > K:
                             break
                         B.run(n_like_max=B.sampler.n_like + 1)
